@@ -411,6 +411,9 @@ class S256Point(Point):
     @classmethod
     def parse_sec(cls, sec_bin):
         """returns a Point object from a SEC pubkey"""
+        # uncompressed keys are 65 bytes, compressed ones 33
+        if len(sec_bin) != (65 if sec_bin[0] == 4 else 33):
+            raise ValueError(f"Wrong SEC length {len(sec_bin)} for prefix {sec_bin[0]:#x}")
         if sec_bin[0] == 4:
             x = int(sec_bin[1:33].hex(), 16)
             y = int(sec_bin[33:65].hex(), 16)
